@@ -194,6 +194,33 @@ theorem volume_faces (faces : List FaceCert) (hv : ∀ f ∈ faces, f.Valid)
     push_cast at ih' hf ⊢
     rw [← ih', ← hf]; ring
 
+/-! ### the repaired coplanarity test (744f807) accepts every exactly planar face, wherever it is placed -/
+
+theorem max_ge_left (a b : ℝ) : a ≤ Scalar.max a b := by
+  unfold Scalar.max; split_ifs with h
+  · exact h.le
+  · exact le_refl _
+
+theorem foldl_max_ge (f : V3 ℝ → ℝ) (l : List (V3 ℝ)) (m : ℝ) :
+    m ≤ l.foldl (fun m v => Scalar.max m (f v)) m := by
+  induction l generalizing m with
+  | nil => exact le_refl _
+  | cons a l ih => exact le_trans (max_ge_left m (f a)) (ih _)
+
+theorem extent_nonneg (vs : List (V3 ℝ)) : 0 ≤ extent vs := by
+  unfold extent
+  simpa [Scalar.lit] using foldl_max_ge (fun v => V3.norm (v - vs.getD 0 V3.zero)) vs 0
+
+/-- over the reals a face lying exactly in the plane through its first vertex passes the test for every
+tolerance `≥ 0`, at every scale and position (the defect D2 was the absolute `atol` of `np.isclose`) -/
+theorem coplanar_of_planar (n : V3 ℝ) (vs : List (V3 ℝ)) (ptol : ℝ) (hp : 0 ≤ ptol)
+    (h : ∀ v ∈ vs, V3.dot (v - vs.getD 0 V3.zero) n = 0) : coplanar n vs ptol = true := by
+  unfold coplanar
+  simp only [List.all_eq_true, decide_eq_true_eq]
+  intro v hv
+  rw [h v hv]
+  simpa using mul_nonneg hp (extent_nonneg vs)
+
 /-! ### the object-level model functions on certified faces -/
 
 /-- what the model's `get_face_area` loop is given for a certified face -/
